@@ -1,4 +1,5 @@
 import XzVerif.Proofs.SizeBound
+import XzVerif.Proofs.Writer2Size
 /-
   C17 — Compression is effective on redundancy and never expands data noticeably.
 
@@ -14,11 +15,16 @@ import XzVerif.Proofs.SizeBound
     (+3, the writer's rule `u + 3 < c + hdr → raw`) and every chunk but the last carries ≥ 3000
     bytes, the LZMA2 stream is at most `n + n/500 + 128` bytes long.
 
-  The two premises of the accounting theorem about the *writer* (the form rule; chunks are only
-  ended by the compressed-size limit, the 2 MiB limit or the end of input) are not modelled; the
-  check measures them on every chunk of every real output (with dictionaries ≥ 64 KiB), together
-  with the size oracle of all three clauses over the three input families, dictionary/look-ahead
-  sizes, lc/lp/pb and both match finders.  The first two clauses (runs, X‖X) depend on what the
+  * `C17_lzma2_no_expansion` — **the third clause itself for the LZMA2 writer model** (Model/Writer2.lean, tied
+    to the real Writer2 by the functional correspondence of C08): for every valid configuration with a dictionary
+    of at least 64 KiB, every applicable match finder and every history of Writes followed by Close (no Flush),
+    the emitted stream is at most `n + n/500 + 128` bytes for `n` bytes written.  The two premises of the
+    accounting theorem are now *proved* about the writer model: every chunk is stored in a form not larger than
+    its raw form (`3 + u`), and every chunk but the last was ended by the compressed-size or the 2 MiB limit and
+    therefore carries ≥ 3000 bytes (the real bound obtained is `n + n/1000 + 4`).
+  The check still measures both premises on every chunk of every real output, together with the size oracle of
+  all three clauses over the three input families, dictionary/look-ahead sizes, lc/lp/pb and both match finders
+  (xz adds a constant container overhead per block that is measured, not proved).  The first two clauses (runs, X‖X) depend on what the
   match finders find; no theorem is claimed for them — they are decided by the size oracle only.
   Hence `_partial`.
 -/
@@ -50,6 +56,15 @@ theorem C17_expansion_accounting (l : List Expansion.Chunk) (h : ∀ ch ∈ l, c
     (hbig : ∀ ch ∈ l.dropLast, 3000 ≤ ch.u) :
     Expansion.sumSz l + 1 ≤ Expansion.sumU l + Expansion.sumU l / 500 + 128 :=
   Expansion.sumSz_small l h hbig
+
+/-- the third clause for the LZMA2 writer model: no noticeable expansion without intermediate Flush -/
+theorem C17_lzma2_no_expansion {σ : Type} (c : W2.Cfg) (hc : W2.CfgOk c) (hdict : 65536 ≤ c.dictCap)
+    (M : W2.Matcher σ) (hM : W2.MatcherOk c M) (m0 : σ) (ps : List ByteArray)
+    (hok : W2.allOk (W2.run c M (W2.init c m0) (ps.map .write ++ [.close])).2) :
+    let w := (W2.run c M (W2.init c m0) (ps.map .write ++ [.close])).1
+    let n := (W2.payload (ps.map .write)).size
+    w.out.size ≤ n + n / 500 + 128 :=
+  W2.no_flush_size_bound c hc hdict M hM m0 ps hok
 
 example : Expansion.sumSz [(65000, 65536, true), (100, 40, false)] = 65003 + 46 := by decide
 
